@@ -129,23 +129,33 @@ theorem runs_repeatable (F : Frame M C) (n k : Nat) (sh : M.Shared) (l : M.Local
 /-! ## The frame holds for the toy machine with the pooled argument slice — and fails without
 the overwrite -/
 
-theorem slot0_fill (s : List Int) (v : Int) : slot0 (fill s v) = v := by
-  cases s <;> rfl
+theorem slot0_fill (s : List Int) (v : Int) : slot0 (fill s v) = v := rfl
 
-/-- the frame of the toy machine: the core is the code; the pools are outside it -/
-def toyFrame : Frame toy (List Instr) where
+/-- the frame of the toy machine, for the two safe policies (`never` = the code, `afterRead`): the
+core is the code; the pools are outside it; a started native goroutine owns its argument slice -/
+def toyFrameOf (pol : PutPolicy) (hpol : pol ≠ .atGo) :
+    Frame ⟨Artefact, Run, ToyObs, toyStep true pol⟩ (List Instr) where
   core := fun sh => sh.body
   pres := by
     intro sh l
-    show (toyStep true sh l).1.body = sh.body
-    unfold toyStep
-    split <;> rfl
+    show (toyStep true pol sh l).1.body = sh.body
+    unfold toyStep deliver
+    repeat' split
+    all_goals rfl
   det := by
     intro sh sh' l h
-    show (toyStep true sh l).2 = (toyStep true sh' l).2
-    unfold toyStep
+    show (toyStep true pol sh l).2 = (toyStep true pol sh' l).2
+    unfold toyStep deliver
     rw [h]
-    split <;> simp [slot0_fill]
+    repeat' split
+    all_goals first
+      | rfl
+      | (simp [slot0_fill]; done)
+      | (exfalso; apply hpol; assumption)
+      | (exfalso; simp at *; done)
+
+def toyFrame : Frame toy (List Instr) := toyFrameOf .never (by decide)
+def toyAfterReadFrame : Frame toyAfterRead (List Instr) := toyFrameOf .afterRead (by decide)
 
 /-- non-interference for the toy machine (the hypothesis of `noninterference` is satisfiable by
 a machine that does write its artefact) -/
@@ -153,8 +163,17 @@ theorem toy_noninterference (sched : List Nat) (s : Sys toy) (i : Nat) (h0 : s.t
     observe i (runSched sched s) = observe 0 (runAlone i sched s) :=
   noninterference toyFrame sched s i h0
 
+/-- **when the pool may be refilled**: putting the slice of a `go` call back *after the callee has
+read its arguments* keeps non-interference … -/
+theorem put_after_read_is_safe (sched : List Nat) (s : Sys toyAfterRead) (i : Nat) (h0 : s.trace = []) :
+    observe i (runSched sched s) = observe 0 (runAlone i sched s) :=
+  noninterference toyAfterReadFrame sched s i h0
+
 /-- a program that calls a native function and shows the result -/
 def demoBody : List Instr := [.const 0 5, .addv 0, .native 0 0, .show 0]
+
+/-- a program that starts a native function with `go` and waits for it -/
+def goBody : List Instr := [.const 0 5, .addv 0, .goNative 0 0, .join]
 
 /-- without the overwrite ("slices overwritten before use" removed) the same statement is
 **false**: run 1 sees the argument run 0 left in the pool. The frame hypothesis is necessary. -/
@@ -166,12 +185,30 @@ theorem stale_pool_interferes :
     ⟨⟨demoBody, [[]]⟩, [freshRun 4 1, freshRun 4 2], []⟩ 1 rfl
   exact absurd this (by decide)
 
+/-- … but putting it back *at the go statement* (`fn.argsPool.Put(args)` reachable after
+`go fn.value.Call(args)`) is **not**: run 0 starts `go native(6)`, run 1 calls the same native
+function and overwrites the pooled slice with 7 before run 0's goroutine has read it; run 0's
+goroutine records `native(7) = 21` instead of 18. Hence the generated fact
+`no_put_reachable_after_go` below. -/
+theorem put_at_go_interferes :
+    ¬ ∀ (sched : List Nat) (s : Sys toyPutAtGo) (i : Nat), s.trace = [] →
+        observe i (runSched sched s) = observe 0 (runAlone i sched s) := by
+  intro h
+  have := h [0, 0, 0, 1, 1, 1, 0, 1]
+    ⟨⟨goBody, [[]]⟩, [freshRun 4 1, freshRun 4 2], []⟩ 0 rfl
+  exact absurd this (by decide)
+
 -- non-vacuity: the toy machine really interleaves, really writes its pools, and run 1's output
 -- is what it is alone
 example : observe 1 (runSched [0, 1, 1, 0, 0, 1, 1, 0] (toySys demoBody 1 [1, 2]))
-    = (some ⟨4, [21, 0, 0, 0], 2⟩, [21]) := by decide
+    = (some ⟨4, [21, 0, 0, 0], 2, []⟩, [.shown 21]) := by decide
 example : (runSched [0, 1, 1, 0, 0, 1, 1, 0] (toySys demoBody 1 [1, 2])).sh.pools = [[[7]]] := by
   decide
+-- the same interleaving as in `put_at_go_interferes`, with the code's policy: run 0 records 18
+example : obsOf 0 (runSched [0, 0, 0, 1, 1, 1, 0, 1] (toySys goBody 1 [1, 2])) = [.recorded 0 18] := by
+  decide
+example : obsOf (M := toyPutAtGo) 0 (runSched [0, 0, 0, 1, 1, 1, 0, 1]
+    ⟨⟨goBody, [[]]⟩, [freshRun 4 1, freshRun 4 2], []⟩) = [.recorded 0 21] := by decide
 
 /-! ## The frame facts regenerated from /repo
 
@@ -238,6 +275,25 @@ theorem package_reference_variables_known : pkgRefVars = knownPkgRefVars := by d
 
 /-- **frame fact 4**: a pooled argument slice is overwritten on every path before the call -/
 theorem args_pool_overwritten_before_use : argsPoolFilledOnEveryPath = true := by decide
+
+/-- the uses of the pooled argument slice, with the branch each is in: one `Get`; on the
+`asGoroutine` branch the slice is handed to `go fn.value.Call/CallSlice(args)` and nothing else
+happens to it; on the other branch it is passed to the synchronous call and then `Put` back -/
+def knownPoolUses : List PoolUse := [
+  ⟨"(*VM).callNative", "Get", "if nunIn > 0 then", "args = fn.argsPool.Get().([]reflect.Value)"⟩,
+  ⟨"(*VM).callNative", "go", "if asGoroutine then; if variadic then", "go fn.value.CallSlice(args)"⟩,
+  ⟨"(*VM).callNative", "go", "if asGoroutine then; if variadic else", "go fn.value.Call(args)"⟩,
+  ⟨"(*VM).callNative", "call", "if asGoroutine else; if variadic then", "out = fn.value.CallSlice(args)"⟩,
+  ⟨"(*VM).callNative", "call", "if asGoroutine else; if variadic else", "out = fn.value.Call(args)"⟩,
+  ⟨"(*VM).callNative", "Put", "if asGoroutine else; if args != nil then", "fn.argsPool.Put(args)"⟩]
+
+/-- **frame fact 4b**: the pooled slice is used exactly there (no escape, no defer, no closure) -/
+theorem args_pool_uses_known : argsPoolUses = knownPoolUses := by decide
+
+/-- **frame fact 4c**: no `Put` of the pool can execute after a `go` statement that was handed
+the pooled slice (the policy `PutPolicy.never` of the model; `put_at_go_interferes` shows what
+happens otherwise) -/
+theorem no_put_reachable_after_go : putReachableAfterGo = [] := by decide
 
 /-- **frame fact 5**: callables are allocated by running code only -/
 theorem callables_allocated_by_runs :
